@@ -849,9 +849,12 @@ class Surface:
             r, t = cart_to_polar(x, y, vec_to_grid=False)
             c, k, dx, dy = params['c'], params['k'], params['dx'], params['dy']
             z = off_axis_conic_sag(c, k, r, t, dx=dx, dy=dy)
-            dr, dt = off_axis_conic_der(c, k, r, t, dx=dx, dy=dy)
-            ddx, ddy = surface_normal_from_cylindrical_derivatives(dr, dt, r, t)
-            return z, ddx, ddy
+            # the surface is the parent conic displaced by (dx, dy), so its Cartesian gradient is the parent's
+            # at (x+dx, y+dy); going through the polar derivatives divides by r and is NaN for the ray
+            # that meets the segment at its own origin (the chief ray)
+            X, Y = x + dx, y + dy
+            phi = np.sqrt(1 - (1 + k) * c * c * (X * X + Y * Y))
+            return z, c * X / phi, c * Y / phi
 
         return cls(typ=typ, P=P, n=n, FFp=FFp, R=R, params=params, bounding=bounding)
 
